@@ -8,7 +8,7 @@ use engeom::{Point2, Point3};
 
 fn queries(rng: &mut Rng, lengths: &[f64]) -> Vec<f64> {
     let l = *lengths.last().unwrap();
-    let mut q = vec![0.0, l, -1e-9, next_down(0.0), next_up(l), l * 1.5 + 1.0, -l];
+    let mut q = vec![0.0, -0.0, l, -1e-9, next_down(0.0), next_up(l), l * 1.5 + 1.0, -l];
     for v in lengths.iter().take(40) {
         q.push(*v);
         q.push(next_up(*v));
@@ -131,7 +131,15 @@ fn check2(rng: &mut Rng) {
 
     let strict = strictly_increasing(&ls);
     for l in queries(rng, &ls) {
-        let st = c.at_length(l);
+        let st = match guarded(|| c.at_length(l)) {
+            Ok(s) => s,
+            Err(e) => {
+                let mut v = Verdict::new();
+                v.require(false, "station.panics", || format!("at_length({l:e}) L={lt:e}: {e}"));
+                emit_oracle_only("curve.at_length", &Tok::new(), &Tok::new(), &v);
+                continue;
+            }
+        };
         let mut v = Verdict::new();
         let mut o = Tok::new();
         let mut i = Tok::new();
@@ -259,7 +267,15 @@ fn check3(rng: &mut Rng) {
     }
     let strict = strictly_increasing(&ls);
     for l in queries(rng, &ls) {
-        let st = c.at_length(l);
+        let st = match guarded(|| c.at_length(l)) {
+            Ok(s) => s,
+            Err(e) => {
+                let mut v = Verdict::new();
+                v.require(false, "station.panics", || format!("at_length({l:e}) L={lt:e}: {e}"));
+                emit_oracle_only("curve.at_length", &Tok::new(), &Tok::new(), &v);
+                continue;
+            }
+        };
         let mut v = Verdict::new();
         let mut o = Tok::new();
         let mut i = Tok::new();
